@@ -647,10 +647,12 @@ impl PlutusList {
     }
 
     pub(crate) fn deduplicated_view(&self) -> Vec<&PlutusData> {
+        // two datums are the same set element exactly when they are written as the same bytes
+        // (the preserved original bytes, if any, else the canonical encoding)
         let mut dedup = BTreeSet::new();
         let mut datas = Vec::new();
         for elem in &self.elems {
-            if dedup.insert(elem) {
+            if dedup.insert(elem.to_bytes()) {
                 datas.push(elem);
             }
         }
@@ -664,10 +666,11 @@ impl PlutusList {
     }
 
     pub(crate) fn deduplicated_clone(&self) -> Self {
+        // same key as deduplicated_view: the bytes the datum is written as
         let mut dedup = BTreeSet::new();
         let mut elems = Vec::new();
         for elem in &self.elems {
-            if dedup.insert(elem) {
+            if dedup.insert(elem.to_bytes()) {
                 elems.push(elem.clone());
             }
         }
